@@ -110,6 +110,12 @@ CHECKS = {
         "DESIGN.md §4 C14",
         TRUSTED + " Regex specifications and non-exact exclusion patterns are excluded, as the property implies.",
     ),
+    "C15": (
+        "explicit-state BFS over evaluation histories on shared evaluables / shared rule objects with canonical hidden-state dedup (every transition compared with the fresh result) + all ordered pairs and bounded histories without dedup; exhaustive permutation of list arguments and of directory enumeration order (Path.iterdir scheduler); one battery per hash seed in fresh interpreters",
+        "History independence is explored as a state space: for every architecture of the bound and the full rule pool a BFS over 'evaluate rule i' histories runs on one shared evaluable, deduplicating on the canonical form of the evaluable's complete attribute state plus all module/class-level state of the loaded pytestarch modules; every transition's (verdict, message) must equal the result on fresh objects and the observable graph must stay unchanged. The same is done for every shared rule object over a pool of evaluables with different module sets, and for a mixed pool of shared module/layer/diagram rules (sharing one LayeredArchitecture) to the fixpoint. The dedup abstraction is validated by no-dedup passes (long histories, all ordered pairs, all histories up to the length bound). Order independence: every permutation of subject/object/layer/module/object-layer lists and exclusion tuples, and every permutation of directory entries at every directory through a scheduler that replaces Path.iterdir. Hash seeds: the same battery in one fresh interpreter per seed, digests compared case by case.",
+        "DESIGN.md §4 C15",
+        TRUSTED + " Only the enumerated hash seeds are covered; set iteration order inside one process is not controlled directly, only through the seeds and through renamings. Real OS threads are not explored (the library creates none).",
+    ),
 }
 
 PENDING = {}
